@@ -247,10 +247,9 @@ theorem commitProveState_inv {s : St} {p : Nat} {nps : ProveState} {s1 : St} {b 
     · split at h
       · exact .inr (tail _ (by rfl) h)
       · exact .inr (tail _ (by rfl) h)
-    · split at h
-      · exact .inr (tail _ (by rfl) h)
-      · simp only [M.pure_eq_ok, Except.ok.injEq, Prod.mk.injEq] at h
-        exact .inl ⟨h.2.symm, h.1.symm⟩
+    · exact .inr (tail _ (by rfl) h)
+    · simp only [M.pure_eq_ok, Except.ok.injEq, Prod.mk.injEq] at h
+      exact .inl ⟨h.2.symm, h.1.symm⟩
   · exact .inr (tail _ (by rfl) h)
 
 theorem getLastStateProof_ne_err {s : St} {p now b : Nat} {ds : List Nat} {c : Nat} {pst : PeerState}
